@@ -176,6 +176,46 @@ impl<'a> Runner<'a> {
             self.rep.extra_add(&format!("refused_{label}"), refused.load(Ordering::Relaxed));
         }
     }
+    /// The cases run as *simultaneous streams*: one decoder per case, all on one new thread, advanced
+    /// in turn from one call site (picture k of every stream, then picture k + 1 of every stream).
+    /// What one decoder leaves behind for the next one - a memo keyed by something the streams share,
+    /// scratch memory - shows as a difference from the reference decoder.
+    pub fn run_lockstep(&self, label: &str, cases: &[Vec<Pic>]) {
+        let rep = self.rep;
+        let prop = self.prop;
+        let (samples, ties) = std::thread::scope(|sc| {
+            sc.spawn(move || {
+                crate::evidence::install_panic_hook();
+                let mut decs: Vec<Dec> = cases.iter().map(|c| Dec::for_hdr(&c[0].hdr)).collect();
+                let mut dead = vec![false; cases.len()];
+                let mut st = CmpStats::default();
+                let steps = cases.iter().map(|c| c.len()).max().unwrap_or(0);
+                for k in 0..steps {
+                    for (ci, c) in cases.iter().enumerate() {
+                        if dead[ci] || k >= c.len() {
+                            continue;
+                        }
+                        if let Err(f) = decs[ci].step(&c[k], prop, &mut st) {
+                            dead[ci] = true;
+                            let before = if ci > 0 { describe(&cases[ci - 1][k.min(cases[ci - 1].len() - 1)]) } else { "nothing".to_string() };
+                            let mut rv = decs[ci].replay(label);
+                            rv["decoded_just_before_by_another_decoder_on_the_thread"] = json!(before);
+                            rep.violation_lazy(&format!("{}[streams-in-lock-step]", f.sig), || (format!("[{label}] stream {ci} of {} decoded in turn on one thread, picture {k} (the decoder before it on the thread handled: {before}): {}", cases.len(), f.what), rv));
+                        }
+                    }
+                }
+                (st.samples, st.ties)
+            })
+            .join()
+            .unwrap_or((0, 0))
+        });
+        self.samples.fetch_add(samples, Ordering::Relaxed);
+        self.ties.fetch_add(ties, Ordering::Relaxed);
+        let n: u64 = cases.iter().map(|c| c.len() as u64).sum();
+        self.rep.add_transitions(n);
+        self.rep.add_states(cases.len() as u64);
+        self.rep.extra_add(&format!("streams_in_lock_step_{label}"), cases.len() as u64);
+    }
     pub fn finish(&self) {
         self.rep.extra("samples_compared", json!(self.samples.load(Ordering::Relaxed)));
         self.rep.extra("samples_accepted_inside_rounding_band", json!(self.ties.load(Ordering::Relaxed)));
@@ -694,10 +734,29 @@ pub fn run_c03(tier: Tier) -> Report {
     }
     r.run("size-histories", &cases);
     rep.add_nontrivial(cases.len() as u64);
+    // ---- the same kind of streams side by side: every 23rd size history plus standard-mode streams,
+    // one decoder each, advanced in turn on one thread
+    {
+        let mut mixed: Vec<Vec<Pic>> = cases.iter().step_by(23).cloned().collect();
+        let reference = noise_intra(Hdr::Std(StdHdr::custom(32, 32, false, 0, 6)), seed);
+        for k in 0..6usize {
+            let specs: Vec<Spec> = (0..4).map(|i| kind_spec((k + i * 2) % 6, i + k)).collect();
+            let mut p = Pic { hdr: Hdr::Std(StdHdr::custom(32, 32, true, 1, 6)), mbs: mbs_for(&specs, 2, false, true) };
+            fix_last_flags(&mut p);
+            let mut q = p.clone();
+            q.mbs.truncate(2);
+            if let Hdr::Std(h) = &mut q.hdr {
+                h.tr = 2;
+            }
+            mixed.push(vec![reference.clone(), p, q]);
+        }
+        r.run_lockstep("streams-side-by-side", &mixed);
+        rep.add_nontrivial(mixed.len() as u64);
+    }
 
     r.finish();
     rep.set_rule(
-        "P/D pictures as syntax trees over LCG-noise reference pictures, decoded by H263State and by the reference decoder (median prediction, wrap, chroma vector, bilinear half-sample, edge clamp, residual add/clip): all 7^n macroblock-kind assignments on 5 grids; every differential (64x64) on single-macroblock pictures of each size class and on the interior macroblock of 48x48 x 3 residual kinds; truncation after every macroblock and at every byte; no-reference rejection (complete pictures, and every early-ended prefix of all-intra / mixed / all-inter pictures incl. the bare header); residual clipping; every ordered pair of ways to signal one picture size between the reference and the predicted picture; every ordered pair of 17 colliding sizes as histories I(A)[,P(A)|D(A)],I(B),[D(B),]P(B); \
+        "P/D pictures as syntax trees over LCG-noise reference pictures, decoded by H263State and by the reference decoder (median prediction, wrap, chroma vector, bilinear half-sample, edge clamp, residual add/clip): all 7^n macroblock-kind assignments on 5 grids; every differential (64x64) on single-macroblock pictures of each size class and on the interior macroblock of 48x48 x 3 residual kinds; truncation after every macroblock and at every byte; no-reference rejection (complete pictures, and every early-ended prefix of all-intra / mixed / all-inter pictures incl. the bare header); residual clipping; every ordered pair of ways to signal one picture size between the reference and the predicted picture; every ordered pair of 17 colliding sizes as histories I(A)[,P(A)|D(A)],I(B),[D(B),]P(B); some forty of these streams and six standard-mode streams decoded in turn by their own decoders on one thread; \
          non-trivial = sequence whose predicted picture has a non-zero vector or a residual",
     );
     rep.sample(json!({"sweep": "mb-types", "picture": "32x32 [Inter4VQ, NotCoded, IntraQ, Inter] over a noise reference"}));
@@ -1017,11 +1076,42 @@ pub fn run_c12(tier: Tier) -> Report {
     }
     r.run("annex-d-plusptype-limited-range", &cases);
     rep.add_nontrivial(cases.len() as u64);
+    // ---- streams of different vector modes side by side: extended-range pictures (sub-QCIF and
+    // 16-wide, vectors beyond the base range) alternate with base-range pictures whose sums wrap,
+    // under all four base header kinds, same temporal references, decoders advanced in turn on one
+    // thread
+    {
+        let umv_hdr = |w: u16, h: u16, inter: bool, tr: u8| -> Hdr {
+            let mut s = StdHdr::custom(w, h, inter, tr, 5);
+            let p = s.plus.as_mut().unwrap();
+            p.opp.modes |= 0x200;
+            p.uui = 1;
+            Hdr::Std(s)
+        };
+        let mut mixed: Vec<Vec<Pic>> = vec![];
+        let wrap_pairs: [(i8, i8); 6] = [(31, 1), (30, 20), (-32, -1), (-20, -30), (15, 17), (-16, -17)];
+        for (k, &(p0, d0)) in wrap_pairs.iter().enumerate() {
+            // an extended-range stream: 128x96, first row chains two differentials beyond 15.5
+            let mut mbs: Vec<Mb> = vec![Mb::inter((31, 0)), Mb::inter((20 + k as i8, 0))];
+            mbs.resize(48, Mb::NotCoded);
+            mixed.push(vec![noise_intra(umv_hdr(128, 96, false, 0), seed ^ 0x91), Pic { hdr: umv_hdr(128, 96, true, 1), mbs }]);
+            // base-range streams with a wrapping pair, one per header kind
+            let pair = vec![Mb::inter((p0, 0)), Mb::inter((d0, 0))];
+            mixed.push(vec![ref2.clone(), Pic { hdr: shdr(32, 16, 1, 1, 5, 0), mbs: pair.clone() }]);
+            mixed.push(vec![ref2_plus.clone(), Pic { hdr: Hdr::Std(StdHdr::custom(32, 16, true, 1, 5)), mbs: pair.clone() }]);
+            let mut m = pair.clone();
+            m.extend((2..48).map(|_| Mb::NotCoded));
+            mixed.push(vec![ref_base.clone(), Pic { hdr: Hdr::Std(StdHdr::baseline(1, true, 1, 5)), mbs: m }]);
+            mixed.push(vec![ref2_v1.clone(), Pic { hdr: shdr(32, 16, 1, 1, 5, 1), mbs: pair.clone() }]);
+        }
+        r.run_lockstep("vector-modes-side-by-side", &mixed);
+        rep.add_nontrivial(mixed.len() as u64);
+    }
     rep.assume("Annex D with UUI = 01 (unlimited range) and the PTYPE-only form of Annex D are not asserted: the decoder does not implement them as specified (see DESIGN.md), and the property is stated for the standard range; the size-dependent range of UUI = 1 is asserted for legal vectors only");
 
     r.finish();
     rep.set_rule(
-        "whole P pictures compared with the reference decoder: all 64x64 (predictor, differential) pairs per component and jointly, in a 2-macroblock row (under four header kinds: Sorenson version 0 and 1, H.263 PLUSPTYPE without optional modes, H.263 plain PTYPE) and in the centre of a 3x3 grid; all four-vector sums -128..=124 x 3 decompositions x 2 components x 2 positions; every assignment of {INTER, INTER4V, INTRA, not-coded} to the existing neighbours of every target position on 9 macroblock grids x target {INTER, INTER4V}; every MVD codeword; every assignment of zero / non-zero vectors inside one and two four-vector neighbours of every target position; with Annex D in PLUSPTYPE (UUI = 1): every legal vector at widths and heights on both sides of every range-class boundary; \
+        "whole P pictures compared with the reference decoder: all 64x64 (predictor, differential) pairs per component and jointly, in a 2-macroblock row (under four header kinds: Sorenson version 0 and 1, H.263 PLUSPTYPE without optional modes, H.263 plain PTYPE) and in the centre of a 3x3 grid; all four-vector sums -128..=124 x 3 decompositions x 2 components x 2 positions; every assignment of {INTER, INTER4V, INTRA, not-coded} to the existing neighbours of every target position on 9 macroblock grids x target {INTER, INTER4V}; every MVD codeword; every assignment of zero / non-zero vectors inside one and two four-vector neighbours of every target position; with Annex D in PLUSPTYPE (UUI = 1): every legal vector at widths and heights on both sides of every range-class boundary; thirty streams of different vector modes (extended range next to the four base header kinds, same temporal references) decoded in turn by their own decoders on one thread; \
          non-trivial = all (each case has a non-zero predictor, differential or neighbour)",
     );
     rep.sample(json!({"sweep": "pairs", "case": "32x16: MB0 vector (+15.5, 0), MB1 differential +0.5 -> expected (-16.0, 0)"}));
